@@ -282,7 +282,7 @@ Section Conserve.
   (* [c] written, [c'] re-read *)
   Definition reread_item (c c' : citem) : Prop :=
     match c, c' with
-    | CI l, CI l' => l' = to_ginlines dir (rr_inlines o l) \/ [CI l'] = para_content l
+    | CI l, CI l' => l' = rel_inlines dir (to_ginlines dir (rr_inlines o l)) \/ [CI l'] = para_content l
     | CC la tx, CC la' tx' => la' = rr_lang la /\ tx' = trim_lf tx +++ LFS
     | CR, CR => True
     | _, _ => False
@@ -316,7 +316,7 @@ Section Conserve.
     intros HF Hl Hs sp k. destruct it as [|h rest]; [discriminate|].
     inversion HF as [|? ? _ HFr]; subst. cbn [forallb] in Hs. apply andb_prop in Hs as [_ Hs].
     assert (Hfull : forall l, Forall2 reread_item (CI l :: flat_map gcontent rest)
-                                (CI (to_ginlines dir (rr_inlines o l)) :: bscontent dir (rr_seq o sp (k + 1 + sp) rest)))
+                                (CI (rel_inlines dir (to_ginlines dir (rr_inlines o l))) :: bscontent dir (rr_seq o sp (k + 1 + sp) rest)))
       by (intros l; constructor; [now left | now apply conserve_seq]).
     assert (Hnone : forall x r, rest = x :: r -> headless_start x r = true ->
               Forall2 reread_item (CI [] :: flat_map gcontent rest) (item_content dir (rr_seq o sp k rest))).
@@ -393,7 +393,7 @@ Section Again.
   Lemma P_cons d t ts : P d (t :: ts) = project_node dir d (tmap (norm_node ctx) t) ++ P d ts.
   Proof. reflexivity. Qed.
 
-  Definition line0 (l : list inline) : list inline := normalize_inlines ctx (to_ginlines dir l).
+  Definition line0 (l : list inline) : list inline := rel_inlines dir (normalize_inlines ctx (to_ginlines dir l)).
   Definition dleaf (b : dblock) : list gblock := project_node dir 0 (T None (norm_node ctx (leaf_node dir b)) []).
   Definition lead_flag (body : list dblock) : bool :=
     match body with DPara _ l :: _ => negb (para_is_ref l) | _ => false end.
@@ -1033,7 +1033,7 @@ Example ex_written_text :
   tree_to_markdown ex_opts [] (key_parent ex_key) ex_tree =
 "# Top
 
-alpha *beta* [old title](a.md) `c`
+alpha *beta* [Title A](a.md) `c`
 
 [Title A](a.md)
 
@@ -1077,7 +1077,7 @@ Proof. split; vm_compute; reflexivity. Qed.
 Example ex_rr :
   rr ex_opts ex_written =
   [DHeader (0, 1) 1 [Str "Top"];
-   DPara (2, 3) [Str "alpha "; Emph [Str "beta"]; Str " "; Link "a.md" "" Regular [Str "old title"]; Str " "; Code "c"];
+   DPara (2, 3) [Str "alpha "; Emph [Str "beta"]; Str " "; Link "a.md" "" Regular [Str "Title A"]; Str " "; Code "c"];
    DPara (4, 5) [Link "a.md" "" Regular [Str "Title A"]];
    DPara (6, 7) [Link "../x" "" WikiLink [Str "../x"]];
    DBList [[DPara (8, 9) [Str "one"];
